@@ -60,7 +60,7 @@ def gen_opts(rng, n_docs, multi=True):
     return o
 
 
-TOKZ = ["ws", "ws", "ws", "table", "gen", "tuple"]
+TOKZ = ["ws", "ws", "ws", "table", "gen", "tuple", "gensplit", "mapsplit"]
 
 
 def vocab_of(docs):
@@ -90,6 +90,17 @@ def build_array(case):
         strs = [(" ".join(tok_name(t) for t in d) if d is not None else (None if i % 2 else float("nan")))
                 for i, d in enumerate(docs)]
         arr = SearchArray.index(strs, **opts)
+    elif tokz in ("gensplit", "mapsplit"):
+        # single-pass iterables over the document's OWN text: equal documents are equal strings (a tokenizer is any
+        # function from str to an iterable of tokens; results must not be shared between rows)
+        strs = [" ".join(tok_name(t) for t in (d or [])) for d in docs]
+        if tokz == "gensplit":
+            def tk(s):
+                return (x for x in s.split())
+        else:
+            def tk(s):
+                return map(str, s.split())
+        arr = SearchArray.index(strs, tokenizer=tk, **opts)
     else:
         table = {f"doc-{i}": [tok_name(t) for t in (d or [])] for i, d in enumerate(docs)}
         keys = [f"doc-{i}" for i in range(len(docs))]
